@@ -225,8 +225,18 @@ def rec(f):
 OPSRC = {"eq": "{x} == {s}", "ge": "{x} <= {s}", "le": "{x} >= {s}", "in": "{x} in {s}"}
 
 
+def fix_case(case):
+    """undo what a JSON round trip does to a case (tuples become lists)"""
+    for evs in case["tests"]:
+        for ev in evs:
+            if ev[0] == "op" and isinstance(ev[4], list):
+                ev[4] = tuple(ev[4])
+    return case
+
+
 def render(case):
     """-> (source text, model events) ; site i is the i-th snapshot call in source order"""
+    fix_case(case)
     sites = case["sites"]
     lines = [PRELUDE % max(1, case["ncs"])]
     access = {}
@@ -419,6 +429,7 @@ def oracle(case, obs):
     """Property clauses evaluated on the implementation's observables only.
     -> list of (property, clause, detail)"""
     fails = []
+    fix_case(case)
     flags, approved = set(case["flags"]), set(case["approved"])
     sites = case["sites"]
     R = obs["R"] or []
